@@ -311,6 +311,12 @@ func init() {
 		"bytes.Index": func(m *Machine, _ *Thread, _ *Frame, a []Value, _ ssa.Value) Value {
 			return m.weakUF("bytes.Index", SBV(64), a)
 		},
+		"bytes.LastIndexByte": func(m *Machine, _ *Thread, _ *Frame, a []Value, _ ssa.Value) Value {
+			return m.weakIndex("bytes.LastIndexByte", a)
+		},
+		"bytes.IndexByte": func(m *Machine, _ *Thread, _ *Frame, a []Value, _ ssa.Value) Value {
+			return m.weakIndex("bytes.IndexByte", a)
+		},
 		"bytes.Count": func(m *Machine, _ *Thread, _ *Frame, a []Value, _ ssa.Value) Value {
 			r := m.weakUF("bytes.Count", SBV(64), a)
 			m.assume(BVCmp("bvslt", r, BVC(64, 1<<31)))
@@ -510,6 +516,17 @@ func (m *Machine) havocJSON(t types.Type, depth int) Value {
 		return &StructV{F: f}
 	}
 	panic(m.unsupported("json.Unmarshal into %s", t))
+}
+
+// weakIndex: an index-returning byte scan over opaque bytes: an uninterpreted function whose
+// result lies in -1..len-1 (weak path).
+func (m *Machine) weakIndex(name string, a []Value) *Term {
+	r := m.weakUF(name, SBV(64), a)
+	if b, ok := a[0].(ByteSlice); ok {
+		n := m.bytesLen(b)
+		m.assume(Or(Eq(r, BVC(64, ^uint64(0))), BVCmp("bvult", r, n)))
+	}
+	return r
 }
 
 func (m *Machine) needBase10(v Value) {
